@@ -223,6 +223,15 @@ class ParameterParser(Logger):
         config = self._raw_config.dict()
         if 'Observation' in config:
             observation_config = config['Observation']
+            for shortcut in ('lightcurve', 'observed_spectrum',
+                             'taurex_spectrum', 'iraclis_spectrum', ):
+                if shortcut in observation_config and \
+                        len(observation_config) > 1:
+                    self.error('Observation %s does not take the '
+                               'parameters %s', shortcut,
+                               [k for k in observation_config
+                                if k != shortcut])
+                    raise KeyError(shortcut)
             if 'lightcurve' in observation_config:
                 from taurex.data.spectrum.lightcurve import ObservedLightCurve
                 return ObservedLightCurve(observation_config['lightcurve'])
